@@ -108,7 +108,11 @@ def do_run(names, tier='quick', all_checks=False, runs=None):
         if all_checks:
             m = json.load(open(os.path.join(ROOT, 'MANIFEST.json')))
             props = [c['property_id'] for c in m['checks']]
-        tmp, r = scratch(os.path.join(d, 'patch.diff'))
+        try:
+            tmp, r = scratch(os.path.join(d, 'patch.diff'))
+        except RuntimeError as e:
+            print(name, 'PATCH-STALE (rebase it onto /repo HEAD):', e)
+            continue
         results = meta.setdefault('checks', {})
         try:
             for pr in props:
